@@ -6,21 +6,25 @@ import (
 	"github.com/bluenviron/mediamtx/internal/zzverif/vnd"
 )
 
-// VerifReadHeaderNoPanic: a segment whose mvhd box carries arbitrary version, time scale and
-// duration is answered with data or an error, never a panic.
+// VerifReadHeaderNoPanic: a segment whose mvhd box (version 0 or 1 layout) carries an arbitrary time
+// scale and duration is answered with data or an error, never a panic.
 func VerifReadHeaderNoPanic() {
-	mvhd := make([]byte, 100)
-	ver := vnd.Byte("version")
-	vnd.Assume(ver <= 1)
+	ver := byte(vnd.Choose("version", 2))
+	// ISO 14496-12: version 0 has 32-bit times (payload 100 bytes), version 1 64-bit ones (112 bytes)
+	n, tsOff, durOff, durLen := 100, 12, 16, 4
+	if ver == 1 {
+		n, tsOff, durOff, durLen = 112, 20, 24, 8
+	}
+	mvhd := make([]byte, n)
 	mvhd[0] = ver
-	copy(mvhd[12:16], vnd.Bytes("timescale", 4))
-	copy(mvhd[16:20], vnd.Bytes("duration", 4))
-	mvhd[20], mvhd[21] = 0, 1 // rate 1.0
-	mvhd[24] = 1              // volume 1.0
+	copy(mvhd[tsOff:tsOff+4], vnd.Bytes("timescale", 4))
+	copy(mvhd[durOff:durOff+durLen], vnd.Bytes("duration", durLen))
+	mvhd[durOff+durLen], mvhd[durOff+durLen+1] = 0, 1 // rate 1.0
+	mvhd[durOff+durLen+4] = 1                        // volume 1.0
 	var file []byte
 	file = append(file, 0, 0, 0, 8, 'f', 't', 'y', 'p')
-	file = append(file, 0, 0, 0, 116, 'm', 'o', 'o', 'v')
-	file = append(file, 0, 0, 0, 108, 'm', 'v', 'h', 'd')
+	file = append(file, 0, 0, 0, byte(n+16), 'm', 'o', 'o', 'v')
+	file = append(file, 0, 0, 0, byte(n+8), 'm', 'v', 'h', 'd')
 	file = append(file, mvhd...)
 	init, d, err := segmentFMP4ReadHeader(bytes.NewReader(file))
 	if err == nil {
@@ -28,6 +32,7 @@ func VerifReadHeaderNoPanic() {
 		_ = d
 	}
 	vnd.Cover(err != nil, "header rejected")
+	vnd.Cover(err == nil && ver == 1, "version 1 header accepted")
 }
 
 // VerifReadHeaderBoxSizes: the same minimal file, with an arbitrary size field in the moov box header
